@@ -50,6 +50,53 @@ def extract(repo):
     grab('setsumPrimes', primes)
     grab('setsumBytes', lambda: eval_int(const_int(s, 'SETSUM_BYTES')))
     grab('setsumBytesPerColumn', lambda: eval_int(const_int(s, 'SETSUM_BYTES_PER_COLUMN')))
+
+    # tuple keys (C16)
+    def c16():
+        def hexconst(src, name):
+            m = re.search(r'\bconst\s+%s\s*:\s*[A-Za-z0-9_]+\s*=\s*([^;]+);' % re.escape(name), src)
+            if not m:
+                raise Missing(name)
+            e = re.sub(r'(u8|u16|u32|u64|usize|i32|i64)$', '', m.group(1).strip().replace('_', ''))
+            return int(e, 0)
+        t1 = read(repo, 'tuple_key/src/lib.rs')
+        tys = ['unit', 'fixed32', 'fixed64', 'sfixed32', 'sfixed64', 'string']
+        dirs = ['Forward', 'Reverse']
+        def to_disc():
+            body = re.search(r'pub fn to_discriminant\b.*?\n}\n', t1, re.S)
+            if not body:
+                raise Missing('to_discriminant')
+            arms = {(a, b): int(n) for a, b, n in re.findall(r'\(KeyDataType::(\w+),\s*Direction::(\w+)\)\s*=>\s*(\d+)', body.group(0))}
+            if len(arms) != 12:
+                raise Missing('to_discriminant arms')
+            return [arms[(t, d)] for d in dirs for t in tys]
+        def from_disc():
+            body = re.search(r'pub fn from_discriminant\b.*?\n}\n', t1, re.S)
+            if not body:
+                raise Missing('from_discriminant')
+            arms = {int(n): (a, b) for n, a, b in re.findall(r'(\d+)\s*=>\s*Some\(\(KeyDataType::(\w+),\s*Direction::(\w+)\)\)', body.group(0))}
+            if not re.search(r'_\s*=>\s*None', body.group(0)):
+                raise Missing('from_discriminant default arm')
+            # entry n (0..15): 0 = None, else 1 + type index + 6 * direction index
+            return [(1 + tys.index(arms[n][0]) + 6 * dirs.index(arms[n][1])) if n in arms else 0 for n in range(16)]
+        grab('tk1Discriminants', to_disc)
+        grab('tk1FromDiscriminant', from_disc)
+        o = read(repo, 'tuple_key/src/ordered.rs')
+        grab('tk1Divide32', lambda: hexconst(o, 'DIVIDE_32'))
+        grab('tk1Divide64', lambda: hexconst(o, 'DIVIDE_64'))
+        pt = read(repo, 'prototk/src/lib.rs')
+        for key, name in [('fieldFirst', 'FIRST_FIELD_NUMBER'), ('fieldLast', 'LAST_FIELD_NUMBER'),
+                          ('fieldFirstReserved', 'FIRST_RESERVED_FIELD_NUMBER'), ('fieldLastReserved', 'LAST_RESERVED_FIELD_NUMBER')]:
+            grab(key, lambda name=name: eval_int(const_int(pt, name)))
+        t2 = read(repo, 'tuple_key2/src/lib.rs')
+        for key, name in [('tk2SignedNegBase', 'SIGNED_NEG_BASE'), ('tk2SignedNegLast', 'SIGNED_NEG_LAST'),
+                          ('tk2SignedNonnegBase', 'SIGNED_NONNEG_BASE'), ('tk2SignedNonnegLast', 'SIGNED_NONNEG_LAST'),
+                          ('tk2UnsignedBase', 'UNSIGNED_BASE'), ('tk2UnsignedLast', 'UNSIGNED_LAST'), ('tk2UnitTag', 'UNIT_TAG')]:
+            grab(key, lambda name=name: hexconst(t2, name))
+    try:
+        c16()
+    except OSError as ex:
+        notes.append('C16 constants: not extracted (%s)' % ex)
     return out, notes
 
 def lean_val(v):
